@@ -41,7 +41,8 @@ enum {
     OP_OPUT, OP_OGET,
     OP_QPUT, OP_QGET, OP_QCANCEL, OP_QREPRIO,
     OP_CWAIT, OP_CSIG, OP_CSET, OP_CCANCEL0, OP_CCANCEL1, OP_CCANCEL2, OP_CREMOVE0, OP_CREMOVE1, OP_CREMOVE2,
-    OP_RECON, OP_RECOFF, OP_TSET, OP_RESTART0, OP_RESTART1, OP_RESTART2
+    OP_RECON, OP_RECOFF, OP_TSET, OP_RESTART0, OP_RESTART1, OP_RESTART2,
+    OP_INTERIM          /* an interim report: every recorded history is finalized at the current time (public API on the history) */
 };
 
 #ifndef NPROC
@@ -188,11 +189,13 @@ static void cancel_timers_of(int id)
     P[id].ntimers = 0;
 }
 
-/* an interrupt / preemption withdraws the target's timers and any resume that is still on its way */
+/* an interrupt / preemption withdraws the target's timers, any resume that is still on its way and other pending interrupts */
 static void interrupt_clears(int id)
 {
     cancel_timers_of(id);
-    for (int k = 0; k < nled; k++) if (led[k].tgt == id && led[k].kind == L_RESUME && !led[k].delivered) led[k].cancelled = 1;
+    /* the delivery wipes every wake-up still queued for the process (cmi_process_cancel_awaiteds): a resume on its way and
+     * any other interrupt issued earlier in this instant are superseded by the one that is delivered */
+    for (int k = 0; k < nled; k++) if (led[k].tgt == id && (led[k].kind == L_RESUME || led[k].kind == L_INTR) && !led[k].delivered) led[k].cancelled = 1;
 }
 
 static void cancel_all_of(int id)
@@ -221,6 +224,12 @@ static void observe(struct traj *tr, const struct cmb_timeseries *ts, double x)
     }
     if (tr->n > 0 && tr->x[tr->n - 1] == x) return;            /* unchanged */
     if (tr->n < 32) { tr->t[tr->n] = cmb_time(); tr->x[tr->n] = x; tr->n++; }
+}
+/* the duration stored with every sample but the last is the time to the next sample */
+static void interim_check(const struct cmb_timeseries *ts)
+{
+    uint64_t n = cmb_timeseries_count(ts);
+    for (uint64_t k = 0; k + 1 < n; k++) sym_assert(ts->wa[k] == ts->ta[k + 1] - ts->ta[k], "the duration of a recorded sample is the time to the next sample");
 }
 static void observe_all(void)
 {
@@ -267,7 +276,7 @@ static void account_signal(int id, int64_t r, const char *unused)
             int clears = (led[cand[c]].kind == L_INTR || led[cand[c]].kind == L_PREEMPT);
             for (int k = 0; k < nled; k++) {
                 if (led[k].tgt != id || led[k].delivered || led[k].cancelled || k == cand[c]) continue;
-                if (clears && (led[k].kind == L_TIMER || led[k].kind == L_RESUME)) continue;
+                if (clears && (led[k].kind == L_TIMER || led[k].kind == L_RESUME || led[k].kind == L_INTR)) continue;
                 n++;
             }
             if (n == actual) { hit = cand[c]; break; }
@@ -296,6 +305,19 @@ static void after_block(int id)
     P[id].waiting = W_NONE;
     sym_assert(cmb_event_pattern_count(CMB_ANY_ACTION, P[id].p, CMB_ANY_OBJECT) == expected_events_for(id),
                "after a blocking call returns, only armed timers and undelivered notifications remain queued for the process");
+}
+
+/* C05/C07: a process that lost what it held learns it from the return value of the blocking call during which it happened:
+ * a call that returns SUCCESS while a PREEMPTED notification issued to the process is still undelivered left it unaware */
+static void after_block_r(int id, int64_t r)
+{
+    after_block(id);
+    if (r == CMB_PROCESS_SUCCESS) {
+        for (int k = 0; k < nled; k++) {
+            if (led[k].tgt == id && led[k].kind == L_PREEMPT && !led[k].delivered && !led[k].cancelled)
+                sym_assert(0, "a blocking call does not return success while a preemption of the caller is still unreported");
+        }
+    }
 }
 
 /* the objects put into the object queue: #3 is NULL, #5 is the same object as #1 (a duplicate) */
@@ -438,7 +460,7 @@ static void step(int id, int op)
         int64_t r = cmb_process_hold(d);
         if (r == CMB_PROCESS_SUCCESS) sym_assert(cmb_time() == now + d, "hold returning success observes start + duration");
         else account_signal(id, r, "hold");
-        after_block(id);
+        after_block_r(id, r);
         break; }
     case OP_TADD: {
         double dt; int64_t sig = sym_range(1, 3, "tsig");
@@ -500,7 +522,7 @@ static void step(int id, int op)
         } else if (r == CMB_PROCESS_STOPPED && P[j].finished && P[j].stopped && cmb_time() == P[j].end_time && !was_done) {
             /* the awaited process was stopped now */
         } else account_signal(id, r, "wait_process");
-        after_block(id);
+        after_block_r(id, r);
         break; }
     case OP_WAITE: {
         if (E_state != 0) break;
@@ -509,7 +531,7 @@ static void step(int id, int op)
         if (r == CMB_PROCESS_SUCCESS) sym_assert(E_state == 1 && cmb_time() == E_time, "wait_event success at the instant the event executed");
         else if (r == CMB_PROCESS_CANCELLED && E_state == 2 && cmb_time() == E_time) { }
         else account_signal(id, r, "wait_event");
-        after_block(id);
+        after_block_r(id, r);
         break; }
     case OP_CANCELE:
         if (E_state == 0) { sym_assert(cmb_event_cancel(E_handle), "cancel of the pending event"); E_state = 2; E_time = now; }
@@ -518,7 +540,7 @@ static void step(int id, int op)
         P[id].waiting = W_YIELD;
         int64_t r = cmb_process_yield();
         account_signal(id, r, "yield");
-        after_block(id);
+        after_block_r(id, r);
         break; }
     case OP_RESUME0: case OP_RESUME1: case OP_RESUME2: case OP_RESUME3: {
         int j = op - OP_RESUME0;
@@ -559,7 +581,7 @@ static void step(int id, int op)
             if (!(cmb_time() > now)) { for (int j = 0; j < NPROC; j++) if (j != id && P[j].waiting == W_ACQ && !P[j].finished) barged = 1; }
             if (op == OP_ACQ) check_service_order(id, W_ACQ, P[id].wait_since, now);
         } else account_signal(id, r, "acquire");
-        after_block(id);
+        after_block_r(id, r);
         break; }
     case OP_REL:
         if (owner != id) break;
@@ -607,7 +629,7 @@ static void step(int id, int op)
                 sym_assert(cmb_resourcepool_held_by_process(PL, me) == P[id].pool_held, "an interrupted pool acquire leaves the caller holding what it held before the call");
             }
         }
-        after_block(id);
+        after_block_r(id, r);
         break; }
     case OP_PREL: case OP_PRELALL: {
         if (P[id].pool_held == 0) break;
@@ -639,7 +661,7 @@ static void step(int id, int op)
         } else {
             buf_level -= moved;
         }
-        after_block(id);
+        after_block_r(id, r);
         break; }
     /* ---------------- object queue (C12) */
     case OP_OPUT: {
@@ -649,7 +671,7 @@ static void step(int id, int op)
         int64_t r = cmb_objectqueue_put(OQ, otag_ptr(tag));
         if (r == CMB_PROCESS_SUCCESS) { oq_fifo[oq_n++] = tag; check_service_order(id, W_OPUT, P[id].wait_since, now); }
         else account_signal(id, r, "objectqueue put");
-        after_block(id);
+        after_block_r(id, r);
         break; }
     case OP_OGET: {
         void *obj = (void *)&otags[7];
@@ -665,7 +687,7 @@ static void step(int id, int op)
                 oq_n--;
             }
         } else { account_signal(id, r, "objectqueue get"); sym_assert(obj == NULL, "a get that does not succeed delivers nothing"); }
-        after_block(id);
+        after_block_r(id, r);
         break; }
     /* ---------------- priority queue (C12) */
     case OP_QPUT: {
@@ -680,7 +702,7 @@ static void step(int id, int op)
             pq[k].tag = k; pq[k].prio = pr; pq[k].handle = h; pq[k].live = 1; pq[k].seq = pq_seq++;
             uint64_t nl = 0; for (int m = 0; m < pq_n; m++) nl += pq[m].live;
         } else account_signal(id, r, "priorityqueue put");
-        after_block(id);
+        after_block_r(id, r);
         break; }
     case OP_QGET: {
         void *obj = (void *)&otags[7];
@@ -697,7 +719,7 @@ static void step(int id, int op)
                 uint64_t nl = 0; for (int m = 0; m < pq_n; m++) nl += pq[m].live;
             }
         } else { account_signal(id, r, "priorityqueue get"); sym_assert(obj == NULL, "a get that does not succeed delivers nothing"); }
-        after_block(id);
+        after_block_r(id, r);
         break; }
     case OP_QCANCEL: case OP_QREPRIO: {
         int m = -1;
@@ -736,7 +758,7 @@ static void step(int id, int op)
             }
         } else account_signal(id, r, "condition wait");
         P[id].c_must = 0;
-        after_block(id);
+        after_block_r(id, r);
         break; }
     case OP_CSET:
         cstate = sym_range(0, 3, "cstate");
@@ -765,6 +787,17 @@ static void step(int id, int op)
         cmb_process_start(P[j].p);          /* documented: a finished process can be started again from the beginning */
         break; }
     case OP_RECON:
+        break;
+    case OP_INTERIM:
+        if (REC) {
+            cmb_timeseries_finalize(cmb_resource_history(R), now);
+            cmb_timeseries_finalize(cmb_resourcepool_get_history(PL), now);
+            cmb_timeseries_finalize(cmb_buffer_history(B), now);
+            cmb_timeseries_finalize(cmb_objectqueue_history(OQ), now);
+            cmb_timeseries_finalize(cmb_priorityqueue_history(PQ), now);
+            interim_check(cmb_resource_history(R)); interim_check(cmb_resourcepool_get_history(PL)); interim_check(cmb_buffer_history(B));
+            interim_check(cmb_objectqueue_history(OQ)); interim_check(cmb_priorityqueue_history(PQ));
+        }
         break;
     default:
         break;
@@ -954,6 +987,7 @@ static void check_history(struct cmb_timeseries *ts, const struct traj *tr, cons
     (void)what;
     uint64_t n = cmb_timeseries_count(ts);
     sym_assert(n >= 1, "history has the start sample");
+    interim_check(ts);
     double prev_t = 0.0;
     for (uint64_t k = 0; k < n; k++) {
         sym_assert(ts->ta[k] >= prev_t, "sample times are non-decreasing");
